@@ -47,11 +47,13 @@ class Volume(CellModifierInput):
                 raise MalformedInputError(
                     input, f"Volume card can't accept any key-value parameters"
                 )
-            if (
-                "keyword" in tree
-                and tree["keyword"].value
-                and tree["keyword"].value.lower() == "no"
-            ):
+            if "keyword" in tree and tree["keyword"].value:
+                # the only word a volume input can hold is NO
+                if tree["keyword"].value.lower() != "no":
+                    raise MalformedInputError(
+                        input,
+                        f"The only keyword of a volume input is NO; {tree['keyword'].value} was given",
+                    )
                 self._calc_by_mcnp = False
             for node in tree["data"]:
                 if not isinstance(node, syntax_node.ValueNode):
